@@ -29,8 +29,8 @@ fn marker_item(w: &World, marker: u64) -> Option<(u64, Vec<u8>)> {
             let k = (marker - 200) as usize;
             Some((2, w.certs[k].cert.to_bytes()))
         }
-        300..=399 => Some((3, RewardAddress::new(1, &Credential::from_scripthash(&w.plutus[if marker == 305 { 0 } else { 1 }].hash())).to_address().to_bytes())),
-        400..=499 => Some((1, w.plutus[if marker == 401 { 0 } else { 1 }].hash().to_bytes())),
+        300..=399 => Some((3, RewardAddress::new(1, &Credential::from_scripthash(&w.plutus[if marker == 305 { 0 } else if marker == 307 { 2 } else { 1 }].hash())).to_address().to_bytes())),
+        400..=499 => Some((1, w.plutus[if marker == 401 || marker == 407 { 0 } else { 1 }].hash().to_bytes())),
         // voters are identified by (kind, hash): 505 = committee script 0 (kind 1), 506 = DRep script 0 (kind 3)
         500..=599 => Some((4, [vec![if marker == 505 { 1u8 } else { 3 }], w.plutus[if marker == 505 || marker == 506 { 0 } else { 2 }].hash().to_bytes()].concat())),
         600..=699 => Some((5, guarded_proposal(w, (marker - 600) as usize).to_bytes())),
